@@ -318,13 +318,14 @@ def grid(spec: R.Spec, fine: int = 8) -> list[Fraction]:
     dy = sorted(pts)
     nd = []
     for i, b in enumerate(dy):
-        if i % 4 == 0:
-            e = R.ilog2(b)
-            k = spec.quantum_exp(e, None)
-            q = Q(2) ** k
-            nd.append(b + q / 3072)
-            if b - q / 7 > 0:
-                nd.append(b - q / 7)
+        # non-dyadic operands (the Fraction -> MPFR round-to-odd path) on BOTH sides of every grid point:
+        # just above, and a seventh of a quantum below (so every quarter-cell holds one)
+        e = R.ilog2(b)
+        k = spec.quantum_exp(e, None)
+        q = Q(2) ** k
+        nd.append(b + q / 3072)
+        if b - q / 7 > 0:
+            nd.append(b - q / 7)
     return dy + nd
 
 
